@@ -88,8 +88,10 @@ func httpServeContent(w http.ResponseWriter, r *http.Request, modtime time.Time,
 	}
 
 	// We only support a single range request, if more than one is submitted we just send back the first
+	sendStart := int64(0)
 	if len(ranges) > 0 {
 		ra := ranges[0]
+		sendStart = ra.start
 		// RFC 7233, Section 4.1:
 		// "If a single part is being transferred, the server
 		// generating the 206 response MUST generate a
@@ -115,6 +117,18 @@ func httpServeContent(w http.ResponseWriter, r *http.Request, modtime time.Time,
 	if contentType := w.Header().Get("Content-Type"); contentType == "" {
 		// Ensure empty string is not returned as value
 		delete(w.Header(), "Content-Type")
+	}
+
+	if r.Method != http.MethodHead {
+		// The caller positioned the reader at the start of the first range as requested, before it was
+		// known which range (if any) is going to be served: re-position when the decision differs
+		// (first range does not overlap, If-Range mismatch, ranges ignored).
+		if s, ok := content.(io.Seeker); ok {
+			if _, err := s.Seek(sendStart, io.SeekStart); err != nil {
+				http.Error(w, "could not seek to the start of the response: "+err.Error(), http.StatusInternalServerError)
+				return
+			}
+		}
 	}
 
 	w.WriteHeader(code)
